@@ -19,6 +19,7 @@ type Prog struct {
 	Scripts map[string][]*rt.Node
 	Main    string
 	Point   PointSpec
+	Capture bool // compare standard output too
 }
 
 // PointSpec is an input point in harness terms (usable for both sides).
@@ -168,7 +169,12 @@ func Differential(p *Prog) Verdict {
 	sc := loaded[p.Main]
 	pt := p.Point.real().Build()
 	sig := &drv.Sig{FireAt: realPollCap}
-	res := drv.Run(sc, pt, sig)
+	var res drv.Result
+	if p.Capture {
+		res = drv.RunCapture(sc, pt, sig)
+	} else {
+		res = drv.Run(sc, pt, sig)
+	}
 	v := Verdict{Real: res}
 	if res.Panic != "" {
 		v.Key = "panic"
@@ -178,6 +184,9 @@ func Differential(p *Prog) Verdict {
 	}
 	canceled := sig.N >= realPollCap
 	realOut := strings.Join(res.Trace, ";") + "|" + res.Point + "|" + fmt.Sprint(res.Err != nil)
+	if p.Capture {
+		realOut += "|out=" + res.Stdout
+	}
 	v.Outcome = realOut
 	var firstW *ref.World
 	var firstPt *ref.Point
@@ -201,6 +210,9 @@ func Differential(p *Prog) Verdict {
 			}
 		} else {
 			refOut := strings.Join(w.Trace, ";") + "|" + rp.Canon() + "|" + fmt.Sprint(rerr != nil)
+			if p.Capture {
+				refOut += "|out=" + w.Stdout.String()
+			}
 			if refOut == realOut {
 				v.OK = true
 				v.RefErr = rerr
@@ -221,8 +233,10 @@ func Differential(p *Prog) Verdict {
 		}
 	case strings.Join(res.Trace, ";") != strings.Join(firstW.Trace, ";"):
 		v.Key = "trace-differs"
-	default:
+	case res.Point != firstPt.Canon():
 		v.Key = "point-differs"
+	default:
+		v.Key = "stdout-differs"
 	}
 	refErrS := "<nil>"
 	if firstErr != nil {
@@ -230,6 +244,9 @@ func Differential(p *Prog) Verdict {
 	}
 	v.What = fmt.Sprintf("program:\n%s\npoint: %s\nreal : trace=%v point=%s err=%v\nref  : trace=%v point=%s err=%s",
 		srcs[p.Main], p.Point, res.Trace, res.Point, res.Err, firstW.Trace, firstPt.Canon(), refErrS)
+	if p.Capture {
+		v.What += fmt.Sprintf("\nreal stdout: %q\nref  stdout: %q", res.Stdout, firstW.Stdout.String())
+	}
 	return v
 }
 
